@@ -51,16 +51,19 @@ Contract clauses evaluated (each is one obligation)
                                              generic clauses stay strict
 
 Input space and bound
-  quick    : every rooted leaf-labelled tree shape with <= 4 leaves (polytomies included, 26+4+1 shapes) with
-             one mutation on EVERY node (root included); 70 generated tree sequences: msprime simulations with
-             3..8 sample nodes, sequence length 100, 1..~10 trees, ~5..40 mutations (several per site), haploid
-             and diploid individuals, historical samples, then randomly transformed by: collapsing internal
-             nodes (polytomies, detached nodes carrying mutations), isolating a node over an interval (missing
-             data with mutations above the isolated node), trimming both flanks (sites beyond the last edge),
-             extra mutations on arbitrary nodes (roots, nodes absent from the local tree), internal samples,
-             splitting edge rows, non-dyadic rescaling of coordinates; each with 5 custom sample masks (all
-             false, all true, internal nodes only, two random) and 3 unphased-individual masks.
-  thorough : shapes with <= 5 leaves (236 more) and 1500 generated tree sequences, up to 12 sample nodes.
+  quick    : every rooted leaf-labelled tree shape with <= 4 leaves (polytomies included, 1+4+26 shapes) with
+             one mutation on EVERY node (root included); 100 generated tree sequences: windows (length 100, or a
+             single tree) carved from a recombining msprime simulation with diploid, haploid and historical
+             (haploid and diploid) individuals and simplified down to 3..8 contemporary sample nodes (+ up to 2
+             historical), 1..~10 trees, ~5..40 fresh mutations (several per site in most inputs), then randomly
+             transformed by: collapsing internal nodes (polytomies, detached nodes carrying mutations), isolating
+             a node over an interval (missing data with mutations above the isolated node), isolating both nodes
+             of an individual, trimming both flanks (sites beyond the last edge), extra mutations on arbitrary
+             nodes (roots, nodes absent from the local tree), internal samples, splitting edge rows, non-dyadic
+             rescaling of coordinates; each with 6 explicit sample masks (the default one, all false, all true,
+             internal nodes only, two random) and 3 unphased-individual masks (all diploid contemporary
+             individuals, a random subset, none).
+  thorough : shapes with <= 5 leaves (236 more) and 5000 generated tree sequences, up to 12 sample nodes.
   Not exhaustive (the generated part is random, seeded by req["seed"]).
 
 Tolerances
@@ -185,18 +188,57 @@ def finish(tables):
     return tables.tree_sequence()
 
 
-def small_sim(rng, n, ploidy=1, hist=0, breaks=4.0, muts=20.0, discrete_sites=True, L=100):
-    seed = int(rng.integers(1, 2 ** 31 - 2))
-    ne = 50
-    sets = [msprime.SampleSet(n, time=0, ploidy=ploidy)]
-    if hist:
-        sets.append(msprime.SampleSet(hist, time=float(rng.integers(5, 60)), ploidy=1))
-    k = n * ploidy + hist
-    tbl = 2 * ne * ploidy * sum(1.0 / i for i in range(1, k))  # roughly the expected total branch length
-    ts = msprime.sim_ancestry(sets, sequence_length=L, recombination_rate=breaks / (L * tbl),
-                              population_size=ne, random_seed=seed)
-    ts = msprime.sim_mutations(ts, rate=muts / (L * tbl), random_seed=seed + 1, discrete_genome=discrete_sites)
-    return finish(ts.dump_tables())
+class Pool:
+    """
+    Source of small simulated tree sequences.  One msprime ancestry simulation costs ~0.4 s of set-up however
+    small it is, so a few larger ones are simulated (24 diploid + 12 haploid contemporary individuals, 6 haploid
+    historical samples at two times, 2 diploid historical individuals; recombining) and small inputs are carved
+    out of them: a random window, simplified down to a random subset of the individuals, then mutated afresh.
+    """
+
+    def __init__(self, rng, length=4000, refresh=150):
+        self.rng, self.length, self.refresh, self.served, self.big = rng, length, refresh, 0, None
+
+    def _simulate(self):
+        seed = int(self.rng.integers(1, 2 ** 31 - 2))
+        sets = [msprime.SampleSet(24, time=0, ploidy=2), msprime.SampleSet(12, time=0, ploidy=1),
+                msprime.SampleSet(3, time=15, ploidy=1), msprime.SampleSet(3, time=40, ploidy=1),
+                msprime.SampleSet(2, time=25, ploidy=2)]
+        self.big = msprime.sim_ancestry(sets, sequence_length=self.length, population_size=50, random_seed=seed,
+                                        recombination_rate=float(self.rng.choice([5e-5, 1.5e-4])))
+        inds = list(self.big.individuals())
+        time = self.big.nodes_time
+        self.groups = {
+            "diploid": [i.id for i in inds if i.nodes.size == 2 and time[i.nodes[0]] == 0],
+            "haploid": [i.id for i in inds if i.nodes.size == 1 and time[i.nodes[0]] == 0],
+            "old-haploid": [i.id for i in inds if i.nodes.size == 1 and time[i.nodes[0]] > 0],
+            "old-diploid": [i.id for i in inds if i.nodes.size == 2 and time[i.nodes[0]] > 0],
+        }
+
+    def draw(self, want, width=100, muts=20.0, discrete_sites=True):
+        """`want`: {group: how many individuals}.  Returns a tree sequence of length `width`."""
+        if self.big is None or self.served % self.refresh == 0:
+            self._simulate()
+        self.served += 1
+        rng = self.rng
+        nodes = []
+        for group, k in want.items():
+            for i in rng.choice(self.groups[group], size=min(k, len(self.groups[group])), replace=False):
+                nodes.extend(int(u) for u in self.big.individual(int(i)).nodes)
+        if rng.random() < 0.25:  # a single tree
+            width = 1
+        a = float(rng.integers(0, self.length - width + 1))
+        ts = self.big.keep_intervals([[a, a + width]], simplify=False).trim().simplify(nodes)
+        if width == 1:  # stretch to the usual length
+            tables = ts.dump_tables()
+            tables.sequence_length = 100.0
+            tables.edges.right = np.full(tables.edges.num_rows, 100.0)
+            ts = tables.tree_sequence()
+        area = float(np.sum((ts.edges_right - ts.edges_left) *
+                            (ts.nodes_time[ts.edges_parent] - ts.nodes_time[ts.edges_child])))
+        ts = msprime.sim_mutations(ts, rate=muts / area, random_seed=int(rng.integers(1, 2 ** 31 - 2)),
+                                   discrete_genome=discrete_sites)
+        return finish(ts.dump_tables())
 
 
 def clip_child(ts, child_nodes, a, b):
@@ -337,19 +379,20 @@ TRANSFORMS = {"isolate": t_isolate, "isolate_individual": t_isolate_individual, 
 def generated(rng, count, max_n):
     """(key, description, ts): simulated then randomly transformed tree sequences."""
     names = list(TRANSFORMS)
+    pool = Pool(rng)
     for i in range(count):
         kind = i % 4
         n = int(rng.integers(3, max_n + 1))
         if kind == 0:
-            ts = small_sim(rng, n, ploidy=1, breaks=float(rng.choice([0, 2, 6])), muts=float(rng.choice([8, 25])))
+            ts = pool.draw({"haploid": n}, muts=float(rng.choice([8, 25])))
         elif kind == 1:
-            ts = small_sim(rng, max(2, n // 2), ploidy=2, breaks=float(rng.choice([1, 4, 8])), muts=30.0)
+            ts = pool.draw({"diploid": max(2, n // 2)}, muts=30.0)
         elif kind == 2:
-            ts = small_sim(rng, max(2, n - 2), ploidy=1, hist=2, breaks=3.0, muts=20.0,
+            ts = pool.draw({"haploid": max(2, n - 2), "old-haploid": 2}, muts=20.0,
                            discrete_sites=bool(rng.random() < 0.5))
         else:
-            ts = small_sim(rng, max(2, n // 2), ploidy=2, hist=int(rng.integers(0, 2)), breaks=5.0, muts=25.0,
-                           discrete_sites=False)
+            ts = pool.draw({"diploid": max(2, n // 2), "old-haploid": int(rng.integers(0, 2)),
+                            "old-diploid": int(rng.integers(0, 2))}, muts=25.0, discrete_sites=False)
         applied = []
         for _ in range(int(rng.integers(0, 4))):
             name = str(rng.choice(names))
@@ -605,7 +648,7 @@ def run(req, rep):
     from tsdate.variational import ExpectationPropagation
 
     thorough = tier == "thorough"
-    max_leaves, count, max_n = (5, 1500, 12) if thorough else (4, 70, 8)
+    max_leaves, count, max_n = (5, 5000, 12) if thorough else (4, 100, 8)
     rep.space = ("all rooted leaf-labelled tree shapes (polytomies included) with one mutation on every node; "
                  "msprime simulations (haploid / diploid / historical samples, sequence length 100) randomly "
                  "transformed by node collapse, node isolation, flank trimming, extra mutations on arbitrary nodes, "
